@@ -71,6 +71,8 @@ def vectors(ctx):
             peak = rng.choice([0, amin // 50, amin // 10, (amin * 19) // 100])
         else:
             peak = rng.randrange(amin // 5 + 1, (amin * 316) // 1000)
+            if peak >= 200:
+                cls = "ten_db_abs"      # noise reaches the absolute tolerance (0.2) of the preamble template
         lead = rng.randrange(0, 40)
         sig = modulate(rng, frames, amps, lead, gaps, 420 + rng.randrange(0, 200), peak)
         V.append({"fn": "demod", "sig": sig, "sent": sent, "cls": cls, "stop": 1, "case": [k, n, cls, peak, amin]})
@@ -93,7 +95,7 @@ def run(ctx):
     cfg = open(os.path.join(tlc.SPEC_DIR, "MC_C19.cfg")).read().replace("MaxFrames = 1", "MaxFrames = %d" % ctx.pick(1, 2))
     ctx.model_check("MC_C19", cfg_text=cfg, what="C19 modulate/demodulate identity", timeout=6000)
     ev, rej = ctx.check_events(vectors(ctx), case_of=case_of, shards=16)
-    ctx.extra["buffers_by_noise_class"] = {c: sum(1 for e in ev if e["cls"] == c) for c in ("quiet", "ten_db")}
+    ctx.extra["buffers_by_noise_class"] = {c: sum(1 for e in ev if e["cls"] == c) for c in ("quiet", "ten_db", "ten_db_abs")}
     ctx.extra["frames_modulated"] = sum(len(e["sent"]) for e in ev)
 
 
